@@ -3932,263 +3932,333 @@ def analyse_binders(table: ic.Table) -> Tuple[Dict[str, SiteResult], List[str], 
 
 
 # ======================================================================================================================
-# Part 1g: the python struct primitives have the ORDERED semantics the algebra assumes
+# Part 1g: the python struct primitives have the ORDERED semantics the algebra assumes  (static order facts)
 # ======================================================================================================================
 #
 # compare_relational() treats tstruct._concat / _insert_field(s) / _drop_fields / _select_fields / _rename as primitives.  Their
-# definitions (hail/python/hail/expr/types.py, class tstruct) are interpreted here by a tiny evaluator over dict / list / set values
-# on sample inputs, and the resulting field ORDER is compared with what the algebra assumes (the same that TStruct.scala implements:
-# `++` appends, typeAfterSelect follows the key order, filterSet / rename keep the struct order, insert appends or replaces in place).
+# definitions (hail/python/hail/expr/types.py, class tstruct) are read SYMBOLICALLY here: nothing is evaluated on concrete values.
+# The syntax tree of each helper is turned into an ORDER TERM describing the field list of the struct it returns
+#
+#     fields(X)                  the fields of the struct / mapping X (self, another parameter, the **kwargs dict) in X's order
+#     keys(k1, ...)              the keys of a dict display, in display order
+#     ounion(t1, t2, ...)        ordered union: dict `update` / repeated insertion - a key keeps the position of its first insertion
+#     filter(t, in|notin P)      comprehension / loop over t in order with a membership filter on parameter P
+#     iter(P)                    one field per element of the GIVEN iterable P, in P's iteration order
+#     maporder(t, M)             the fields of t in order, each renamed by M.get(name, name)
+#
+# and compared with the term the algebra (and TStruct.scala: `++`, typeAfterSelect(key.map(fieldIdx)), filterSet, rename,
+# appendKey / insertFields) assumes.  A recognised different term is a violation; an unrecognised shape is an AnalysisError.
 
 TYPES_PY = 'hail/python/hail/expr/types.py'
 
 
-class _MiniRaise(Exception):
-    pass
+def _o_union(*parts: tuple) -> tuple:
+    out: List[tuple] = []
+    for p in parts:
+        if p == ('empty',):
+            continue
+        if p[0] == 'ounion':
+            out.extend(p[1])
+        else:
+            out.append(p)
+    if not out:
+        return ('empty',)
+    if len(out) == 1:
+        return out[0]
+    return ('ounion', tuple(out))
 
 
-class _Struct(dict):
-    """model of a tstruct value: an insertion-ordered mapping field -> type"""
+def show_order(t: tuple) -> str:
+    h = t[0]
+    if h == 'empty':
+        return '(no fields)'
+    if h == 'fields':
+        return f'fields of `{t[1]}` in its own order'
+    if h == 'keys':
+        return 'the field(s) ' + ', '.join(f'`{k}`' for k in t[1])
+    if h == 'ounion':
+        return ' then '.join(show_order(x) for x in t[1]) + ' (a name keeps its first position)'
+    if h == 'filter':
+        return f'{show_order(t[1])}, keeping those {"not " if t[2][0] == "notin" else ""}in `{t[2][1]}`'
+    if h == 'iter':
+        return f'one field per element of `{t[1]}`, in the order of `{t[1]}`'
+    if h == 'maporder':
+        return f'{show_order(t[1])}, each renamed through `{t[2]}`'
+    return str(t)
 
 
-class MiniStruct:
+class StructOrder:
+    """Symbolic reader of the tstruct helper definitions (order terms, see above)."""
+
     def __init__(self) -> None:
         m = pf.load(TYPES_PY)
+        self.path = m.path
         self.cls = m.cls('tstruct')
         self.methods = {f.name: f for f in self.cls.body if isinstance(f, ast.FunctionDef)}
         self.depth = 0
 
-    def call_method(self, this: _Struct, name: str, args: List[Any], kwargs: Dict[str, Any]) -> Any:
+    def fail(self, w: str, msg: str):
+        raise AnalysisError(f'{TYPES_PY}::tstruct.{w}: {msg}')
+
+    # values: ('self',)  ('param', n)  ('kwdict', n)  ('odict', order)  ('struct', order)  ('keyexpr', ...) for dict keys
+    def result_order(self, name: str, bindings: Optional[Dict[str, Any]] = None) -> tuple:
         fn = self.methods.get(name)
         if fn is None:
-            raise AnalysisError(f'{TYPES_PY}::tstruct.{name}: method not found')
+            self.fail(name, 'method not found')
         self.depth += 1
-        if self.depth > 6:
-            raise AnalysisError(f'{TYPES_PY}::tstruct.{name}: recursion too deep')
+        if self.depth > 5:
+            self.fail(name, 'helpers call each other too deeply')
         try:
-            a = fn.args
+            a = fn.args  # type: ignore[union-attr]
+            if a.vararg or a.posonlyargs or a.kwonlyargs or fn.decorator_list:  # type: ignore[union-attr]
+                self.fail(name, 'unrecognised signature')
             params = [x.arg for x in a.args]
-            env: Dict[str, Any] = {params[0]: this}
-            rest = params[1:]
-            if len(args) > len(rest):
-                raise AnalysisError(f'{TYPES_PY}::tstruct.{name}: too many arguments')
-            for p, v in zip(rest, args):
-                env[p] = v
-            extra = {}
-            for k, v in kwargs.items():
-                if k in rest:
-                    env[k] = v
-                else:
-                    extra[k] = v
+            env: Dict[str, Any] = {params[0]: ('self',)}
+            for p in params[1:]:
+                env[p] = (bindings or {}).get(p, ('param', p))
             if a.kwarg is not None:
-                env[a.kwarg.arg] = extra
-            elif extra:
-                raise AnalysisError(f'{TYPES_PY}::tstruct.{name}: unexpected keyword')
-            for p in rest:
-                if p not in env:
-                    raise AnalysisError(f'{TYPES_PY}::tstruct.{name}: missing argument {p}')
-            try:
-                self.block(fn.body, env, name)
-            except _Return as r:
-                return r.value
-            return None
+                env[a.kwarg.arg] = (bindings or {}).get('**', ('odict', ('fields', a.kwarg.arg)))
+            r = self.block(fn.body, env, name)  # type: ignore[union-attr]
+            if r is None or r[0] != 'struct':
+                self.fail(name, 'does not return a struct built by tstruct(**...)')
+            return r[1]
         finally:
             self.depth -= 1
 
-    def block(self, stmts: Sequence[ast.stmt], env: Dict[str, Any], w: str) -> None:
+    def block(self, stmts: Sequence[ast.stmt], env: Dict[str, Any], w: str) -> Optional[tuple]:
         for st in stmts:
             if isinstance(st, ast.Expr):
-                if not isinstance(st.value, ast.Constant):
-                    self.ev(st.value, env, w)
-            elif isinstance(st, ast.Assign) and len(st.targets) == 1:
-                v = self.ev(st.value, env, w)
+                v = st.value
+                if isinstance(v, ast.Constant):
+                    continue
+                # d.update(X)
+                if (isinstance(v, ast.Call) and isinstance(v.func, ast.Attribute) and v.func.attr == 'update' and isinstance(v.func.value, ast.Name)
+                        and len(v.args) == 1 and not v.keywords):
+                    d = env.get(v.func.value.id)
+                    x = self.ev(v.args[0], env, w)
+                    if d is None or d[0] != 'odict' or x[0] != 'odict':
+                        self.fail(w, f'unrecognised update `{pf.nsrc(v)[:60]}`')
+                    env[v.func.value.id] = ('odict', _o_union(d[1], x[1]))
+                    continue
+                self.fail(w, f'unrecognised statement `{pf.nsrc(st)[:60]}`')
+            elif isinstance(st, ast.Assign) and len(st.targets) == 1 and isinstance(st.targets[0], ast.Name):
+                env[st.targets[0].id] = self.ev(st.value, env, w)
+            elif isinstance(st, ast.Assign) and len(st.targets) == 1 and isinstance(st.targets[0], ast.Subscript) and isinstance(st.targets[0].value, ast.Name):
+                # d[k] = v  outside a loop: one more key
                 t = st.targets[0]
-                if isinstance(t, ast.Name):
-                    env[t.id] = v
-                elif isinstance(t, ast.Subscript):
-                    self.ev(t.value, env, w)[self.ev(t.slice, env, w)] = v
-                else:
-                    raise AnalysisError(f'{TYPES_PY}::tstruct.{w}: unrecognised assignment')
-            elif isinstance(st, ast.Return):
-                raise _Return(self.ev(st.value, env, w) if st.value is not None else None)
-            elif isinstance(st, ast.If):
-                self.block(st.body if self.ev(st.test, env, w) else st.orelse, env, w)
+                d = env.get(t.value.id)  # type: ignore[attr-defined]
+                if d is None or d[0] != 'odict':
+                    self.fail(w, f'unrecognised store `{pf.nsrc(st)[:60]}`')
+                env[t.value.id] = ('odict', _o_union(d[1], ('keys', (pf.nsrc(t.slice),))))  # type: ignore[attr-defined]
             elif isinstance(st, ast.For):
-                for x in list(self.ev(st.iter, env, w)):
-                    self.bind(st.target, x, env, w)
-                    self.block(st.body, env, w)
-            elif isinstance(st, ast.Raise):
-                raise _MiniRaise()
+                self.loop(st, env, w)
+            elif isinstance(st, ast.Return):
+                if st.value is None:
+                    self.fail(w, 'bare return')
+                return self.ev(st.value, env, w)
             elif isinstance(st, (ast.Pass, ast.Assert)):
-                pass
+                continue
             else:
-                raise AnalysisError(f'{TYPES_PY}::tstruct.{w}: unrecognised statement {type(st).__name__}')
+                self.fail(w, f'unrecognised statement {type(st).__name__}')
+        return None
 
-    def bind(self, t: ast.AST, v: Any, env: Dict[str, Any], w: str) -> None:
-        if isinstance(t, ast.Name):
-            env[t.id] = v
-        elif isinstance(t, ast.Tuple) and len(t.elts) == len(v):
-            for x, xv in zip(t.elts, v):
-                self.bind(x, xv, env, w)
+    def source_order(self, it: ast.AST, env: Dict[str, Any], w: str) -> Tuple[tuple, str]:
+        """Order term and iteration mode ('items' -> (name, type) pairs, 'names' -> names) of an iterated expression."""
+        if isinstance(it, ast.Call) and isinstance(it.func, ast.Attribute) and it.func.attr == 'items' and not it.args and not it.keywords:
+            v = self.ev(it.func.value, env, w)
+            mode = 'items'
         else:
-            raise AnalysisError(f'{TYPES_PY}::tstruct.{w}: unrecognised loop target')
+            v = self.ev(it, env, w)
+            mode = 'names'
+        if v == ('self',):
+            return ('fields', 'self'), mode
+        if v[0] == 'odict':
+            return v[1], mode
+        if v[0] == 'param':
+            # a parameter used as a mapping (.items()) contributes its own fields; iterated directly it is a GIVEN list of names
+            return (('fields', v[1]) if mode == 'items' else ('iter', v[1])), mode
+        self.fail(w, f'unrecognised iteration source `{pf.nsrc(it)[:50]}`')
+        return ('empty',), mode
 
-    def comp(self, gens: Sequence[ast.comprehension], env: Dict[str, Any], w: str, emit: Callable[[Dict[str, Any]], None]) -> None:
-        if not gens:
-            emit(env)
-            return
-        g = gens[0]
-        for x in list(self.ev(g.iter, env, w)):
-            e2 = dict(env)
-            self.bind(g.target, x, e2, w)
-            if all(self.ev(c, e2, w) for c in g.ifs):
-                self.comp(gens[1:], e2, w, emit)
+    def membership(self, test: ast.AST, var: str, env: Dict[str, Any], w: str) -> tuple:
+        if isinstance(test, ast.Compare) and len(test.ops) == 1 and isinstance(test.left, ast.Name) and test.left.id == var:
+            c = test.comparators[0]
+            if isinstance(c, ast.Call) and pf.dotted(c.func) in ('set', 'frozenset', 'list', 'tuple') and len(c.args) == 1:
+                c = c.args[0]
+            if isinstance(c, ast.Name) and env.get(c.id, ('?',))[0] == 'param':
+                if isinstance(test.ops[0], ast.NotIn):
+                    return ('notin', c.id)
+                if isinstance(test.ops[0], ast.In):
+                    return ('in', c.id)
+        self.fail(w, f'unrecognised filter `{pf.nsrc(test)[:50]}`')
+        return ('?',)
 
-    def ev(self, e: ast.AST, env: Dict[str, Any], w: str) -> Any:
-        if isinstance(e, ast.Constant):
-            return e.value
+    def key_order(self, key: ast.AST, var: str, src: tuple, env: Dict[str, Any], w: str, local: Optional[Dict[str, ast.AST]] = None) -> tuple:
+        """Order of the keys produced by inserting `key` for every element of src (whose name is bound to `var`)."""
+        if isinstance(key, ast.Name) and local and key.id in local:
+            key = local[key.id]
+        if isinstance(key, ast.Name) and key.id == var:
+            return src
+        if (isinstance(key, ast.Call) and isinstance(key.func, ast.Attribute) and key.func.attr == 'get' and isinstance(key.func.value, ast.Name)
+                and len(key.args) == 2 and all(isinstance(x, ast.Name) and x.id == var for x in key.args)
+                and env.get(key.func.value.id, ('?',))[0] == 'param'):
+            return ('maporder', src, key.func.value.id)
+        self.fail(w, f'unrecognised key expression `{pf.nsrc(key)[:50]}`')
+        return ('empty',)
+
+    def loop(self, st: ast.For, env: Dict[str, Any], w: str) -> None:
+        src, mode = self.source_order(st.iter, env, w)
+        tgt = st.target
+        if mode == 'items' and isinstance(tgt, ast.Tuple) and len(tgt.elts) == 2 and all(isinstance(x, ast.Name) for x in tgt.elts):
+            var = tgt.elts[0].id  # type: ignore[attr-defined]
+        elif mode == 'names' and isinstance(tgt, ast.Name):
+            var = tgt.id
+        else:
+            self.fail(w, 'unrecognised loop target')
+        if st.orelse:
+            self.fail(w, 'for/else')
+        local: Dict[str, ast.AST] = {}
+
+        def body(stmts: Sequence[ast.stmt], cur: tuple) -> tuple:
+            for s in stmts:
+                if isinstance(s, ast.Assign) and len(s.targets) == 1 and isinstance(s.targets[0], ast.Name):
+                    local[s.targets[0].id] = s.value
+                elif isinstance(s, ast.Assign) and len(s.targets) == 1 and isinstance(s.targets[0], ast.Subscript) and isinstance(s.targets[0].value, ast.Name):
+                    dname = s.targets[0].value.id  # type: ignore[attr-defined]
+                    d = env.get(dname)
+                    if d is None or d[0] != 'odict':
+                        self.fail(w, f'unrecognised store `{pf.nsrc(s)[:60]}`')
+                    env[dname] = ('odict', _o_union(d[1], self.key_order(s.targets[0].slice, var, cur, env, w, local)))  # type: ignore[index]
+                elif isinstance(s, ast.If):
+                    raises_t = any(isinstance(x, ast.Raise) for x in s.body)
+                    raises_f = any(isinstance(x, ast.Raise) for x in s.orelse)
+                    if raises_t and not raises_f:
+                        body(s.orelse, cur)       # the other branch only rejects the input
+                    elif raises_f and not raises_t:
+                        body(s.body, cur)
+                    elif not s.orelse and not raises_t:
+                        # `if <membership>: d[k] = v`  = a filtered insertion
+                        body(s.body, ('filter', cur, self.membership(s.test, var, env, w)))
+                    else:
+                        self.fail(w, 'unrecognised conditional in a loop')
+                elif isinstance(s, (ast.Pass, ast.Assert)) or (isinstance(s, ast.Expr) and isinstance(s.value, ast.Constant)):
+                    continue
+                elif isinstance(s, ast.Raise):
+                    continue
+                else:
+                    self.fail(w, f'unrecognised loop statement `{pf.nsrc(s)[:60]}`')
+            return cur
+        body(st.body, src)
+
+    def ev(self, e: ast.AST, env: Dict[str, Any], w: str) -> tuple:
         if isinstance(e, ast.Name):
             if e.id in env:
                 return env[e.id]
-            raise AnalysisError(f'{TYPES_PY}::tstruct.{w}: unbound name {e.id}')
+            self.fail(w, f'unbound name {e.id}')
         if isinstance(e, ast.Dict):
-            out: Dict[Any, Any] = {}
+            if not e.keys:
+                return ('odict', ('empty',))
+            parts: List[tuple] = []
             for k, v in zip(e.keys, e.values):
                 if k is None:
-                    out.update(self.ev(v, env, w))
+                    x = self.ev(v, env, w)
+                    if x[0] != 'odict':
+                        self.fail(w, 'unrecognised ** in a dict display')
+                    parts.append(x[1])
                 else:
-                    out[self.ev(k, env, w)] = self.ev(v, env, w)
-            return out
-        if isinstance(e, (ast.List, ast.Tuple)):
-            vals = [self.ev(x, env, w) for x in e.elts]
-            return vals if isinstance(e, ast.List) else tuple(vals)
-        if isinstance(e, ast.Set):
-            return {self.ev(x, env, w) for x in e.elts}
+                    parts.append(('keys', (pf.nsrc(k),)))
+            return ('odict', _o_union(*parts))
+        if isinstance(e, ast.Call) and pf.dotted(e.func) == 'dict' and not e.args and not e.keywords:
+            return ('odict', ('empty',))
+        if isinstance(e, ast.Attribute) and e.attr == '_field_types':
+            b = self.ev(e.value, env, w)
+            if b == ('self',):
+                return ('odict', ('fields', 'self'))
+            if b[0] == 'param':
+                return ('odict', ('fields', b[1]))
+            self.fail(w, f'unrecognised `{pf.nsrc(e)}`')
         if isinstance(e, ast.DictComp):
-            d: Dict[Any, Any] = {}
-            self.comp(e.generators, env, w, lambda e2: d.__setitem__(self.ev(e.key, e2, w), self.ev(e.value, e2, w)))
-            return d
-        if isinstance(e, (ast.ListComp, ast.GeneratorExp, ast.SetComp)):
-            l: List[Any] = []
-            self.comp(e.generators, env, w, lambda e2: l.append(self.ev(e.elt, e2, w)))
-            return set(l) if isinstance(e, ast.SetComp) else l
-        if isinstance(e, ast.Subscript):
-            b = self.ev(e.value, env, w)
-            if isinstance(e.slice, ast.Slice):
-                lo = self.ev(e.slice.lower, env, w) if e.slice.lower is not None else None
-                hi = self.ev(e.slice.upper, env, w) if e.slice.upper is not None else None
-                return b[lo:hi]
-            return b[self.ev(e.slice, env, w)]
-        if isinstance(e, ast.Attribute):
-            b = self.ev(e.value, env, w)
-            if isinstance(b, _Struct) and e.attr == '_field_types':
-                return b
-            if isinstance(b, _Struct) and e.attr in ('_fields', 'fields'):
-                return tuple(b.keys())
-            raise AnalysisError(f'{TYPES_PY}::tstruct.{w}: unrecognised attribute {e.attr}')
-        if isinstance(e, ast.UnaryOp) and isinstance(e.op, ast.Not):
-            return not self.ev(e.operand, env, w)
-        if isinstance(e, ast.BoolOp):
-            vals = [self.ev(v, env, w) for v in e.values]
-            if isinstance(e.op, ast.And):
-                r: Any = True
-                for v in vals:
-                    r = r and v
-                return r
-            r = False
-            for v in vals:
-                r = r or v
-            return r
-        if isinstance(e, ast.Compare) and len(e.ops) == 1:
-            a, b = self.ev(e.left, env, w), self.ev(e.comparators[0], env, w)
-            op = e.ops[0]
-            if isinstance(op, ast.In):
-                return a in b
-            if isinstance(op, ast.NotIn):
-                return a not in b
-            if isinstance(op, ast.Eq):
-                return a == b
-            if isinstance(op, ast.NotEq):
-                return a != b
-            if isinstance(op, ast.Is):
-                return a is b
-            if isinstance(op, ast.IsNot):
-                return a is not b
-        if isinstance(e, ast.IfExp):
-            return self.ev(e.body if self.ev(e.test, env, w) else e.orelse, env, w)
+            if len(e.generators) != 1:
+                self.fail(w, 'nested comprehension')
+            g = e.generators[0]
+            src, mode = self.source_order(g.iter, env, w)
+            if mode == 'items' and isinstance(g.target, ast.Tuple) and len(g.target.elts) == 2 and all(isinstance(x, ast.Name) for x in g.target.elts):
+                var = g.target.elts[0].id  # type: ignore[attr-defined]
+            elif mode == 'names' and isinstance(g.target, ast.Name):
+                var = g.target.id
+            else:
+                self.fail(w, 'unrecognised comprehension target')
+            for c in g.ifs:
+                src = ('filter', src, self.membership(c, var, env, w))
+            return ('odict', self.key_order(e.key, var, src, env, w))
         if isinstance(e, ast.Call):
-            args = []
-            for a in e.args:
-                if isinstance(a, ast.Starred):
-                    args += list(self.ev(a.value, env, w))
-                else:
-                    args.append(self.ev(a, env, w))
-            kwargs: Dict[str, Any] = {}
-            for k in e.keywords:
-                if k.arg is None:
-                    kwargs.update(self.ev(k.value, env, w))
-                else:
-                    kwargs[k.arg] = self.ev(k.value, env, w)
             d = pf.dotted(e.func)
             if d in ('tstruct', 'hl.tstruct'):
-                if args:
-                    raise AnalysisError(f'{TYPES_PY}::tstruct.{w}: positional tstruct(...)')
-                return _Struct(kwargs)
-            if d in ('set', 'list', 'tuple', 'dict', 'len', 'repr', 'str', 'isinstance'):
-                if d == 'isinstance':
-                    return isinstance(args[0], _Struct)
-                return {'set': set, 'list': list, 'tuple': tuple, 'dict': dict, 'len': len, 'repr': repr, 'str': str}[d](*args)
-            if isinstance(e.func, ast.Attribute):
-                b = self.ev(e.func.value, env, w)
-                m = e.func.attr
-                if isinstance(b, _Struct) and m in self.methods and m not in ('items', 'keys', 'values', 'get'):
-                    return self.call_method(b, m, args, kwargs)
-                if isinstance(b, dict) and m in ('update', 'get', 'items', 'keys', 'values', 'pop', 'setdefault'):
-                    r = getattr(dict, m)(b, *args)
-                    return list(r) if m in ('items', 'keys', 'values') else r
-                if isinstance(b, list) and m in ('append', 'extend'):
-                    return getattr(list, m)(b, *args)
-                if isinstance(b, set) and m in ('add', 'union', 'difference'):
-                    return getattr(set, m)(b, *args)
-                if isinstance(b, str) and m == 'format':
-                    return b
-            raise AnalysisError(f'{TYPES_PY}::tstruct.{w}: unrecognised call `{pf.nsrc(e)[:60]}`')
-        raise AnalysisError(f'{TYPES_PY}::tstruct.{w}: unrecognised expression {type(e).__name__}')
-
-
-class _Return(Exception):
-    def __init__(self, value: Any):
-        self.value = value
+                if e.args or len(e.keywords) != 1 or e.keywords[0].arg is not None:
+                    self.fail(w, f'unrecognised struct construction `{pf.nsrc(e)[:60]}`')
+                x = self.ev(e.keywords[0].value, env, w)
+                if x[0] != 'odict':
+                    self.fail(w, 'tstruct(**x) of something that is not a recognised dict')
+                return ('struct', x[1])
+            # self.helper(...)
+            if isinstance(e.func, ast.Attribute) and isinstance(e.func.value, ast.Name) and env.get(e.func.value.id) == ('self',) and e.func.attr in self.methods:
+                fn = self.methods[e.func.attr]
+                params = [x.arg for x in fn.args.args[1:]]
+                b: Dict[str, Any] = {}
+                if len(e.args) > len(params):
+                    self.fail(w, 'too many arguments to a helper')
+                for p_, a_ in zip(params, e.args):
+                    b[p_] = self.ev(a_, env, w) if isinstance(a_, (ast.Name, ast.Dict)) else ('param', pf.nsrc(a_))
+                for k in e.keywords:
+                    if k.arg is None:
+                        x = self.ev(k.value, env, w)
+                        if x[0] != 'odict':
+                            self.fail(w, 'unrecognised ** argument')
+                        b['**'] = x
+                    else:
+                        b[k.arg] = self.ev(k.value, env, w) if isinstance(k.value, (ast.Name, ast.Dict)) else ('param', pf.nsrc(k.value))
+                return ('struct', self.result_order(e.func.attr, b))
+        self.fail(w, f'unrecognised expression `{pf.nsrc(e)[:60]}`')
+        return ('?',)
 
 
 def struct_primitive_checks() -> List[Tuple[str, bool, str]]:
-    """(primitive, holds, detail) for each struct primitive the algebra relies on."""
-    ms = MiniStruct()
-    S = lambda: _Struct([('a', 'A'), ('b', 'B'), ('c', 'C')])  # noqa: E731
-    O = lambda: _Struct([('d', 'D'), ('e', 'E')])  # noqa: E731
-    cases = [
-        ('_concat', lambda: ms.call_method(S(), '_concat', [O()], {}), [('a', 'A'), ('b', 'B'), ('c', 'C'), ('d', 'D'), ('e', 'E')],
-         'concat(s, o): fields of s in order, then the fields of o (engine: TStruct.++)'),
-        ('_insert_field', lambda: ms.call_method(S(), '_insert_field', ['z', 'Z'], {}), [('a', 'A'), ('b', 'B'), ('c', 'C'), ('z', 'Z')],
-         'insert of a fresh field appends it (engine: appendKey / structInsert / insertFields)'),
-        ('_insert_fields', lambda: ms.call_method(S(), '_insert_fields', [], {'z': 'Z', 'y': 'Y'}), [('a', 'A'), ('b', 'B'), ('c', 'C'), ('z', 'Z'), ('y', 'Y')],
-         'fresh fields are appended in argument order'),
-        ('_drop_fields', lambda: ms.call_method(S(), '_drop_fields', [{'b'}], {}), [('a', 'A'), ('c', 'C')],
-         'drop keeps the remaining fields in struct order (engine: filterSet(include = false))'),
-        ('_select_fields', lambda: ms.call_method(S(), '_select_fields', [['c', 'a']], {}), [('c', 'C'), ('a', 'A')],
-         'select returns the fields in the order of the KEY list, not of the struct (engine: typeAfterSelect(key.map(fieldIdx)))'),
-        ('_rename', lambda: ms.call_method(S(), '_rename', [{'b': 'q'}], {}), [('a', 'A'), ('q', 'B'), ('c', 'C')],
-         'rename keeps the struct order (engine: TStruct.rename)'),
-    ]
-    out = []
-    for name, fn, want, text in cases:
-        try:
-            got = fn()
-        except _MiniRaise:
-            out.append((name, False, f'{text}; the definition raises on the sample input'))
-            continue
-        if not isinstance(got, _Struct):
-            raise AnalysisError(f'{TYPES_PY}::tstruct.{name}: does not return a struct on the sample input')
-        g = list(got.items())
-        out.append((name, g == want, f'{text}; sample struct{{a, b, c}}: expected field list {[k for k, _ in want]}, the definition yields {[k for k, _ in g]}'))
+    """(primitive, holds, detail): the order term read from each helper's syntax tree vs the term the algebra assumes."""
+    so = StructOrder()
+    out: List[Tuple[str, bool, str]] = []
+
+    def params(name: str) -> List[str]:
+        fn = so.methods.get(name)
+        if fn is None:
+            raise AnalysisError(f'{TYPES_PY}::tstruct.{name}: method not found')
+        return [a.arg for a in fn.args.args[1:]] + ([fn.args.kwarg.arg] if fn.args.kwarg else [])
+
+    def expect(name: str, want: tuple, engine: str) -> None:
+        got = so.result_order(name)
+        out.append((name, got == want, f'the struct it returns has: {show_order(got)}; the typing rules and the engine ({engine}) assume: {show_order(want)}'))
+
+    p = params('_concat')
+    if len(p) != 1:
+        raise AnalysisError(f'{TYPES_PY}::tstruct._concat: unexpected signature')
+    expect('_concat', _o_union(('fields', 'self'), ('fields', p[0])), 'TStruct.++')
+    p = params('_insert_fields')
+    if len(p) != 1:
+        raise AnalysisError(f'{TYPES_PY}::tstruct._insert_fields: unexpected signature')
+    expect('_insert_fields', _o_union(('fields', 'self'), ('fields', p[0])), 'insertFields: existing names keep their position, new names are appended')
+    p = params('_insert_field')
+    if len(p) != 2:
+        raise AnalysisError(f'{TYPES_PY}::tstruct._insert_field: unexpected signature')
+    expect('_insert_field', _o_union(('fields', 'self'), ('keys', (p[0],))), 'appendKey / structInsert')
+    p = params('_drop_fields')
+    if len(p) != 1:
+        raise AnalysisError(f'{TYPES_PY}::tstruct._drop_fields: unexpected signature')
+    expect('_drop_fields', ('filter', ('fields', 'self'), ('notin', p[0])), 'filterSet(include = false): struct order')
+    p = params('_select_fields')
+    if len(p) != 1:
+        raise AnalysisError(f'{TYPES_PY}::tstruct._select_fields: unexpected signature')
+    expect('_select_fields', ('iter', p[0]), 'typeAfterSelect(key.map(fieldIdx)): KEY order, not struct order')
+    p = params('_rename')
+    if len(p) != 1:
+        raise AnalysisError(f'{TYPES_PY}::tstruct._rename: unexpected signature')
+    expect('_rename', ('maporder', ('fields', 'self'), p[0]), 'TStruct.rename: struct order')
     return out
